@@ -62,6 +62,42 @@ UNKNOWN = {
     "x86": ["vfoobarpd %xmm1, %xmm2, %xmm3", "qwertzq %rax, %rbx", "vblorpps (%rax), %ymm1, %ymm2", "xyzzy"],
     "aarch64": ["fooadd x1, x2, x3", "zzmul v1.2d, v2.2d, v3.2d", "qldr d0, [x1, 8]", "xyzzy"],
 }
+# instructions whose model entry has a latency but no throughput / port data (X-marked, counted as missing) or a throughput but
+# no latency: zen1 ships three of the first kind; the synthetic 'csx' model (zen1 + three forms) provides all kinds
+PARTIAL = {
+    "zen1": ["rcpss %xmm0, %xmm1", "sqrtsd %xmm0, %xmm1", "sqrtss %xmm2, %xmm1", "pop %rax"],
+    "csx": ["ptla %xmm1, %xmm2", "ptlb %xmm3, %xmm4", "ptlc %xmm5, %xmm6", "rcpss %xmm0, %xmm1"],
+}
+SYNTH_FORMS = """
+- name: ptla
+  operands:
+  - class: register
+    name: xmm
+  - class: register
+    name: xmm
+  throughput: ~
+  latency: 4.0
+  port_pressure: []
+  uops: 1
+- name: ptlb
+  operands:
+  - class: register
+    name: xmm
+  - class: register
+    name: xmm
+  throughput: ~
+  latency: 2.0
+  port_pressure: []
+- name: ptlc
+  operands:
+  - class: register
+    name: xmm
+  - class: register
+    name: xmm
+  throughput: 1.0
+  latency: ~
+  port_pressure: [[1, '0']]
+"""
 ZERO = {
     "x86": ["jne .L77", "jmp .L77", "nop", "je .L77", "jb .L77"],
     "aarch64": ["bne .L77", "b.ne .L77", "nop", "b .L77", "b.lt .L77"],
@@ -198,6 +234,12 @@ def make_case(cls, isa, arch, r, pools):
             lines = [r.choice(pool) for _ in range(r.randrange(2, 14))]
             for _ in range(r.randrange(1, 5)):
                 lines.insert(r.randrange(len(lines) + 1), r.choice(UNKNOWN[isa]))
+    elif cls == "partial":
+        lines = [r.choice(pool) for _ in range(r.randrange(1, 9))]
+        for _ in range(r.randrange(1, 4)):
+            lines.insert(r.randrange(len(lines) + 1), r.choice(PARTIAL[arch]))
+        if r.random() < 0.4:
+            lines.insert(r.randrange(len(lines) + 1), r.choice(UNKNOWN[isa]))
     elif cls == "zero":
         lines = [r.choice(pool) for _ in range(r.randrange(1, 10))]
         for _ in range(r.randrange(1, 4)):
@@ -456,6 +498,8 @@ def judge(case, text, d, deps, R, file_text, from_yaml=False):
             J.bad("cell/LCD", "line %d: LCD cell %r, dict LatencyLCD %r (%d cells differ)" % (ln, cell, v, len(lcd_bad)))
     # ---- unknown-instruction branch
     unk = [k["LineNumber"] for k in K if "tp_unknown" in k["Flags"]]
+    R.count("partial_tp_unknown_lt_known_lines", sum(1 for k in K if "tp_unknown" in k["Flags"] and "lt_unknown" not in k["Flags"]))
+    R.count("partial_lt_unknown_tp_known_lines", sum(1 for k in K if "lt_unknown" in k["Flags"] and "tp_unknown" not in k["Flags"]))
     analysed = set(k["LineNumber"] for k in K)
     gen_unk = [l for l in case.get("gen_unknown") or [] if l in analysed]
     for l in gen_unk:
@@ -681,7 +725,10 @@ def plan(tier, seed):
         for a in models:
             specs.append({"arch": a, "runs": 17, "mode": "inproc"})
         specs.append({"arch": None, "runs": 10, "mode": "cli"})
+        specs.append({"arch": "csx", "runs": 12, "mode": "synth"})
     else:
+        for part in range(2):
+            specs.append({"arch": "csx", "runs": 100, "mode": "synth", "part": part})
         for a in models:
             for part in range(2):
                 specs.append({"arch": a, "runs": 180, "mode": "inproc", "part": part})
@@ -729,6 +776,8 @@ def floors(tier):
     }
     for c in CLASSES:
         f["class:" + c] = (2 if c in LEN_CLASSES else 3) if q else 60
+    f["class:partial"] = 10 if q else 150
+    f["partial_tp_unknown_lt_known_lines"] = 8 if q else 120
     return f
 
 
@@ -748,8 +797,33 @@ def run_shard(spec, R):
                 case = make_case(cls, isa, arch, r, pools)
                 execute(case, R, work, mode="cli")
             return
+        if spec["mode"] == "synth":
+            # zen1 plus three partial-data forms, installed as csx.yml in a private data directory searched first
+            import osaca.utils as utils
+
+            os.makedirs(work, exist_ok=True)
+            src = dict(isolate.model_files())["zen1"]
+            with open(src) as fh:
+                text = fh.read().replace("arch_code: ZEN1", "arch_code: CSX")
+            with open(os.path.join(work, "csx.yml"), "w") as fh:
+                fh.write(text.rstrip("\n") + "\n" + SYNTH_FORMS)
+            old_dirs = list(utils.DATA_DIRS)
+            utils.DATA_DIRS.insert(0, work)
+            try:
+                for i in range(spec["runs"]):
+                    case = make_case("partial", "x86", "csx", r, pools)
+                    case["fixed"], case["ignore_unknown"] = bool(i & 1), bool(i & 2)
+                    execute(case, R, work, mode="inproc", load=(i % 5 == 0))
+            finally:
+                utils.DATA_DIRS[:] = old_dirs
+            return
         arch = spec["arch"]
         isa = isolate.isa_of(arch)
+        if arch == "zen1":
+            for i in range(4 if spec["tier"] == "quick" else 24):
+                case = make_case("partial", isa, arch, r, pools)
+                case["fixed"], case["ignore_unknown"] = bool(i & 1), bool(i & 2)
+                execute(case, R, work, mode="inproc", load=(i % 4 == 0))
         if spec["tier"] == "quick":
             # the >=100-line files take the multi-process LCD path (16 forks each): two of the six per shard
             k = spec["shard"]
